@@ -2,11 +2,11 @@
     is_partition: every item exactly once (Permutation of the contents), exactly k bins, recorded sums are the totals.
     `X_total`: a run to completion (no time limit) never yields a missing result.
     snp/rnp: premise `nameof` injective = names determine items (plain numbers, or distinct names).
-    rnp is proved for 1..3 bins only (beyond: known finding rnp-float-index; 4 and 5 bins judged per input).
+    rnp is proved for 1..5 bins, the range its source supports (6, 7, 10, ... bins: known finding rnp-float-index).
     multifit: its float capacity search is modelled bit-exactly (Model/Multifit.v, binary64 as dyadic rationals); it may return fewer bins, never more.
     ilp: the decoding of a solver answer is a partition (Properties/C17); judged per input here.
     Statements only; proofs in Proofs/{Greedy,KK,CG,DP,CBLDM,SNP}Proofs.v. *)
-From Prtpy Require Import Base.Prelude Model.Binner Model.Objectives Model.Greedy Model.KK Model.CG Model.DP Model.CBLDM Model.SNP Spec.Partition Proofs.GreedyProofs Proofs.KKProofs Proofs.CGProofs Proofs.DPProofs Proofs.CBLDMProofs Proofs.SNPProofs Model.Multifit Proofs.MultifitProofs.
+From Prtpy Require Import Base.Prelude Model.Binner Model.Objectives Model.Greedy Model.KK Model.CG Model.DP Model.CBLDM Model.SNP Spec.Partition Proofs.GreedyProofs Proofs.KKProofs Proofs.CGProofs Proofs.DPProofs Proofs.CBLDMProofs Proofs.SNPProofs Model.Multifit Proofs.MultifitProofs Proofs.RNPProofs.
 
 (** greedy / LPT *)
 Theorem C01_greedy_partition :
@@ -102,16 +102,6 @@ Theorem C01_snp_partition :
 Proof. exact @snp_partition. Qed.
 Print Assumptions C01_snp_partition.
 
-(** recursive number partitioning, 1..3 bins *)
-Theorem C01_rnp_partition_small :
-  forall (A : Type) (valueof nameof : A -> Z),
-  (forall x y : A, nameof x = nameof y -> x = y) ->
-  forall (k : nat) (items : list A) (b : bins A),
-  (1 <= k <= 3)%nat ->
-  items <> [] -> rnp valueof nameof true k items = Ok b -> is_partition valueof k items b.
-Proof. exact @rnp_partition_small. Qed.
-Print Assumptions C01_rnp_partition_small.
-
 (** multifit: every item exactly once, recorded sums are the totals, no empty bin *)
 Theorem C01_multifit_partition :
   forall (A : Type) (valueof : A -> Z) (it k : nat) (items : list A) (b : bins A),
@@ -143,4 +133,26 @@ Theorem C01_multifit_total :
   exists b : bins A, multifit valueof keep it k items = Ok b.
 Proof. exact @multifit_total. Qed.
 Print Assumptions C01_multifit_total.
+
+(** recursive number partitioning, 1..5 bins (the range the source supports) *)
+Theorem C01_rnp_partition :
+  forall (A : Type) (valueof nameof : A -> Z),
+  (forall x y : A, nameof x = nameof y -> x = y) ->
+  forall (k : nat) (items : list A) (b : bins A),
+  (1 <= k <= 5)%nat ->
+  items <> [] -> rnp valueof nameof true k items = Ok b -> is_partition valueof k items b.
+Proof. exact @rnp_partition_le5. Qed.
+Print Assumptions C01_rnp_partition.
+
+(** ... and it always returns a result there *)
+Theorem C01_rnp_total :
+  forall (A : Type) (valueof nameof : A -> Z),
+  (forall x y : A, nameof x = nameof y -> x = y) ->
+  forall (k : nat) (items : list A),
+  (1 <= k <= 5)%nat ->
+  items <> [] ->
+  Forall (fun x : A => 0 <= valueof x) items ->
+  exists b : bins A, rnp valueof nameof true k items = Ok b.
+Proof. exact @rnp_total_le5. Qed.
+Print Assumptions C01_rnp_total.
 
